@@ -103,7 +103,11 @@ def main():
     if spec.get('order_scan'):
         from pyvc import setscan
         with open(os.path.join(VERIF, 'checks', 'order_sites.json')) as fh:
-            allowed = {x['site']: x['discharged_by'] for x in json.load(fh)['sites']}
+            listed = json.load(fh)['sites']
+        allowed = {x['site']: x['discharged_by'] for x in listed}
+        # the same site after a renaming of locals: same file, function, kind and the same expression up to the names of its locals,
+        # each keeping its kind (set-typed or not) -- `norm` is recorded next to the text of every listed site (setscan --write-norms)
+        allowed_norm = {x['norm']: x for x in listed if x.get('norm')}
         sites, nfiles = setscan.scan_repo(REPO)
         order_scan = {'files': nfiles, 'sites': []}
         for st_ in sites:
@@ -112,6 +116,11 @@ def main():
                 discharged += 1
                 per_backend['syntactic-scan'] = per_backend.get('syntactic-scan', 0) + 1
                 order_scan['sites'].append({'site': st_.key(), 'discharged_by': allowed[st_.key()]})
+            elif st_.norm_key() in allowed_norm:
+                discharged += 1
+                per_backend['syntactic-scan'] = per_backend.get('syntactic-scan', 0) + 1
+                order_scan['sites'].append({'site': st_.key(), 'discharged_by': allowed_norm[st_.norm_key()]['discharged_by'],
+                                            'listed_as': allowed_norm[st_.norm_key()]['site']})
             else:
                 failed_obls.append(('order-scan', 'order-indep@' + st_.key(), 'ungenerated',
                                     'a set-typed value is iterated, converted, rendered, merged or escapes at a site that is not on the allowlist'))
